@@ -450,3 +450,54 @@ def gen_eventsetup_cases(rng, n):
 
 
 py_checks.GENS["eventsetup"] = gen_eventsetup_cases
+
+
+# --- registry: Simulator._add_market / _add_session / _add_agent -------------------------------------------------
+
+def gen_registry_cases(rng, n):
+    """the translated `_add_market`, `_add_session`, `_add_agent` against CPython on a real simulator: fresh entities,
+    ids / names already in use, an object registered twice, groups that exist or not"""
+    from pams.agents import ArbitrageAgent, FCNAgent, MarketMakerAgent
+    for k in range(n):
+        sim, sessions, markets, events, t = _world(rng)
+        ags = []
+        for i, cls in enumerate([FCNAgent, ArbitrageAgent]):
+            a = cls(agent_id=i, prng=random.Random(5), simulator=sim, name="a%d" % i)
+            sim._add_agent(a, group_name="G" if i == 0 else None)
+            ags.append(a)
+        kind = rng.choice(["market", "session", "agent"])
+        r = rng.random()
+        new_id = rng.choice([7, 9]) if r < 0.6 else rng.choice([0, 1])
+        new_name = "zz%d" % k if rng.random() < 0.7 else rng.choice(["m0", "s0", "a0", "idx", "a1"])
+        group = rng.choice([None, "G", "H", "m0"])
+        if kind == "market":
+            if rng.random() < 0.12:
+                obj = rng.choice(markets)
+            else:
+                obj = Market(market_id=new_id, prng=random.Random(2), simulator=sim, name=new_name)
+            yield SimCase("Simulator._add_market", sim._add_market, [sim, obj, group], [], [sim] + markets + [obj])
+        elif kind == "session":
+            if rng.random() < 0.12:
+                obj = rng.choice(sessions)
+            else:
+                obj = Session(session_id=new_id, prng=random.Random(1), session_start_time=0, simulator=sim, name=new_name)
+            yield SimCase("Simulator._add_session", sim._add_session, [sim, obj], [], [sim] + sessions + [obj])
+        else:
+            if rng.random() < 0.12:
+                obj = rng.choice(ags)
+            else:
+                obj = rng.choice([FCNAgent, ArbitrageAgent, MarketMakerAgent])(
+                    agent_id=new_id, prng=random.Random(5), simulator=sim, name=new_name)
+            yield SimCase("Simulator._add_agent", sim._add_agent, [sim, obj, group], [], [sim] + ags + [obj])
+
+
+FIELDS[Simulator] = FIELDS[Simulator] + [
+    "n_markets", "name2market", "markets_group_name2market", "sessions", "n_sessions", "id2session", "name2session",
+    "agents", "n_agents", "name2agent", "high_frequency_agents", "normal_frequency_agents", "agents_group_name2agent"]
+from pams.agents import ArbitrageAgent as _Arb, FCNAgent as _Fcn, MarketMakerAgent as _Mm  # noqa: E402
+from pams.agents.base import Agent as _Agent  # noqa: E402
+for _c in (_Arb, _Fcn, _Mm):
+    FIELDS[_c] = FIELDS[_Agent] + ["name"]
+if "HighFrequencyAgent" not in py_checks.CLASS_GLOBALS:
+    py_checks.CLASS_GLOBALS.append("HighFrequencyAgent")
+py_checks.GENS["registry"] = gen_registry_cases
